@@ -12,8 +12,17 @@ import SimuVerif.Lemmas.C11_Remesh
     (`addNode_freeOk`, `deleteNode_freeOk`, `splitEdge_freeOk`, `mergeEdge_freeOk`), conservation
     (`splitEdge_totalMom`, `mergeEdge_totalMom`), and `survivors_unmoved_split/merge`, `split_new_node_pos`,
     `merge_new_node_pos`;
+  * whole pass: `passOps` (the trace of operations), `refineMesh_preserves` (induction principle),
+    `refineMesh_totalMom`, `refineMesh_survivors_unmoved`; the swap pass leaves the node store alone
+    (`sameNodes_removeElongated`);
   * control: `loop_selective`/`refineMesh_selective`, `conforming_fixpoint`, `noop_step_*`, `split_step`,
-    `merge_step`, `loop_stops`, `termination_partial`.
+    `merge_step`, `loop_stops`, `termination_partial`;
+  * non-vacuity: a unit tetrahedron over ℚ with nonzero momenta, evaluated by the kernel (`decide +kernel`,
+    no `native_decide`): a pass with three splits, a single split, a single collapse, a conforming pass.
+
+  NOT covered here: that the triangles a split creates inherit the face type (needs a free-list invariant for
+  the FACE slots, analogous to `FreeOk`); the enclosed-volume half of "volume and area change only through
+  collapses and swaps" is `C01.split_volume`, the area half is `split_area_sum`.
 -/
 set_option linter.unusedSectionVars false
 set_option linter.unusedVariables false
@@ -65,7 +74,7 @@ theorem new_node_equidistant (a b : V3 R) :
       V3.sub_z, V3.smul_x, V3.smul_y, V3.smul_z]
     ring
   · apply V3.ext' <;>
-      simp only [Gen.splitConsts, zeroV, lit_zero, lit_one, lit_two, V3.cross_def, V3.add_x, V3.add_y, V3.add_z,
+      simp only [Gen.splitConsts, zeroV, lit_zero, lit_one, lit_two, V3.add_x, V3.add_y, V3.add_z,
         V3.sub_x, V3.sub_y, V3.sub_z, V3.smul_x, V3.smul_y, V3.smul_z] <;> ring
   · simp only [Gen.splitConsts, lit_one, lit_two, V3.normSq_def, V3.add_x, V3.add_y, V3.add_z, V3.sub_x, V3.sub_y,
       V3.sub_z, V3.smul_x, V3.smul_y, V3.smul_z]
@@ -307,8 +316,8 @@ theorem loop_stops (fn : Fn R) (k : RefineConsts R) (lminSq lmaxSq : R) (fuel : 
 
     MISSING for an unconditional bound: a bound on the number of operations `S + M` themselves.  The loop's own
     guard `iter < edges.size()` (`loop_stops`; `iter` counts the operations, `split_step`/`merge_step`) is
-    relative to an edge set that grows by 3 with every split, so it bounds the collapses but not the splits;
-    that the splits end is a geometric fact (every split halves an edge longer than `l_max`) and is not proved. -/
+    relative to an edge set that grows with every split, so it gives no a-priori bound; that the splits end is a
+    geometric fact (every split halves an edge longer than `l_max`) and is not proved. -/
 theorem termination_partial (fn : Fn R) (k : RefineConsts R) (lminSq lmaxSq : R) (fuel : Nat) (c : Cell R)
     (chk : CheckSet) (iter : Nat) (log : Log R) :
     let r := loopI fn k lminSq lmaxSq fuel c chk iter log
@@ -327,42 +336,113 @@ theorem termination_partial (fn : Fn R) (k : RefineConsts R) (lminSq lmaxSq : R)
 
 /-! ### non-vacuity -/
 
-/-- a two-slot store with one free slot satisfies the invariant, and slot 0 is live -/
-example : FreeOk (⟨#[⟨⟨1, 0, 0⟩, ⟨2, 0, 0⟩, true⟩, ⟨zeroV, zeroV, false⟩], #[], [], [1], []⟩ : Cell ℚ)
-    ∧ UsedAt (⟨#[⟨⟨1, 0, 0⟩, ⟨2, 0, 0⟩, true⟩, ⟨zeroV, zeroV, false⟩], #[], [], [1], []⟩ : Cell ℚ) 0 := by
-  refine ⟨⟨?_, by simp⟩, ⟨_, rfl, rfl⟩⟩
-  intro i hi
-  simp only [List.mem_singleton] at hi
-  subst hi
-  exact ⟨_, rfl, rfl⟩
+/-! ### boolean checkers for the hypotheses (sound; used below to discharge them on a concrete run) -/
 
+def usedB (c : Cell R) (i : Nat) : Bool := match c.nodes[i]? with | some n => n.used | none => false
+def edgeLiveB (c : Cell R) (e : Edge) : Bool := e.n1 != e.n2 && usedB c e.n1 && usedB c e.n2
+def freeOkB (c : Cell R) : Bool :=
+  c.freeNodes.all (fun i => match c.nodes[i]? with | some n => !n.used | none => false) && decide c.freeNodes.Nodup
+
+theorem usedAt_of_usedB {c : Cell R} {i : Nat} (h : usedB c i = true) : UsedAt c i := by
+  unfold usedB at h
+  cases hn : c.nodes[i]? with
+  | none => rw [hn] at h; cases h
+  | some n => rw [hn] at h; exact ⟨n, hn, h⟩
+
+theorem edgeLive_of_B {c : Cell R} {e : Edge} (h : edgeLiveB c e = true) : EdgeLive c e := by
+  unfold edgeLiveB at h
+  simp only [Bool.and_eq_true, bne_iff_ne, ne_eq] at h
+  exact ⟨h.1.1, usedAt_of_usedB h.1.2, usedAt_of_usedB h.2⟩
+
+theorem freeOk_of_B {c : Cell R} (h : freeOkB c = true) : FreeOk c := by
+  unfold freeOkB at h
+  simp only [Bool.and_eq_true, List.all_eq_true, decide_eq_true_eq] at h
+  refine ⟨?_, h.2⟩
+  intro i hi
+  have := h.1 i hi
+  cases hn : c.nodes[i]? with
+  | none => rw [hn] at this; cases this
+  | some n => rw [hn] at this; exact ⟨n, rfl, by simpa using this⟩
+
+set_option maxRecDepth 1000000
+/-! ### a concrete run over ℚ: unit tetrahedron, nonzero momenta -/
+
+def fnQ : Fn ℚ := ⟨id, id, id, id, fun _ => 0⟩
+def tetQ : Except Err (Cell ℚ) :=
+  initCell fnQ [⟨0,0,0⟩,⟨1,0,0⟩,⟨0,1,0⟩,⟨0,0,1⟩] [(0,2,1),(0,1,3),(0,3,2),(1,2,3)]
+def tetCell : Cell ℚ := match tetQ with | .ok c => c | .error _ => ⟨#[], #[], [], [], []⟩
+/-- the tetrahedron with momenta (1,2,-1), (2,2,-1), (3,2,-1), (4,2,-1) -/
+def tetM : Cell ℚ := { tetCell with nodes := tetCell.nodes.mapIdx (fun i n => { n with mom := ⟨(i : ℚ) + 1, 2, -1⟩ }) }
+def kQ : RefineConsts ℚ := Gen.refineConsts fnQ
+
+example : tetCell.edges.length = 6 := by decide +kernel
+example : totalMom tetM = ⟨10, 8, -4⟩ := by decide +kernel
+
+/-- the hypotheses of `refineMesh_totalMom` hold on a pass that performs three splits … -/
+theorem run_hyps : FreeOk tetM ∧ (passOps fnQ kQ 0 (3/2) false tetM 100).length = 3 ∧
+    ∀ op ∈ passOps fnQ kQ 0 (3/2) false tetM 100, EdgeLive op.1 op.2.1 := by
+  refine ⟨freeOk_of_B (by decide +kernel), by decide +kernel, ?_⟩
+  have : (passOps fnQ kQ 0 (3/2) false tetM 100).all (fun op => edgeLiveB op.1 op.2.1) = true := by decide +kernel
+  intro op hop
+  exact edgeLive_of_B (List.all_eq_true.1 this op hop)
+
+/-- … so that pass conserves the total momentum -/
+example : totalMom (refineMesh fnQ kQ 0 (3/2) false tetM 100).1 = ⟨10, 8, -4⟩ := by
+  rw [(refineMesh_totalMom fnQ kQ rfl 0 (3/2) false tetM 100 run_hyps.1 run_hyps.2.2).1]
+  decide +kernel
+
+def okB {ε α : Type} : Except ε α → Bool | .ok _ => true | .error _ => false
+theorem ok_of_okB {ε α : Type} {x : Except ε α} (h : okB x = true) : ∃ a, x = .ok a := by
+  cases x with
+  | ok a => exact ⟨a, rfl⟩
+  | error e => cases h
+
+/-- the cell after splitting the edge 0–1 of the tetrahedron -/
+def splitCell : Cell ℚ :=
+  match splitEdge fnQ Gen.splitConsts tetM ⟨0, 1, some 0, some 1⟩ [] with | .ok r => r.1 | .error _ => tetM
+
+/-- the hypotheses of `splitEdge_totalMom` and of `mergeEdge_totalMom` are satisfiable -/
+example : ∃ c' chk', FreeOk tetM ∧ EdgeLive tetM ⟨0, 1, some 0, some 1⟩ ∧
+    splitEdge fnQ Gen.splitConsts tetM ⟨0, 1, some 0, some 1⟩ [] = .ok (c', chk') := by
+  obtain ⟨⟨c', chk'⟩, h⟩ := ok_of_okB (x := splitEdge fnQ Gen.splitConsts tetM ⟨0, 1, some 0, some 1⟩ []) (by decide +kernel)
+  exact ⟨c', chk', freeOk_of_B (by decide +kernel), edgeLive_of_B (by decide +kernel), h⟩
+
+example : ∃ c' chk', FreeOk splitCell ∧ EdgeLive splitCell ⟨0, 2, some 2, some 1⟩ ∧
+    mergeEdge fnQ Gen.splitConsts splitCell ⟨0, 2, some 2, some 1⟩ [] = .ok (c', chk') := by
+  obtain ⟨⟨c', chk'⟩, h⟩ := ok_of_okB (x := mergeEdge fnQ Gen.splitConsts splitCell ⟨0, 2, some 2, some 1⟩ []) (by decide +kernel)
+  exact ⟨c', chk', freeOk_of_B (by decide +kernel), edgeLive_of_B (by decide +kernel), h⟩
+
+/-- the hypotheses of `conforming_fixpoint` hold for the tetrahedron and the band [1/2, 2] -/
+example : refineMesh fnQ kQ (1/2) 2 false tetCell 100 = (tetCell, .returned, []) :=
+  conforming_fixpoint_returned fnQ kQ (1/2) 2 tetCell 100 (by decide +kernel) (by decide +kernel) (by decide +kernel)
 end Simu.C11
 
-#print axioms Simu.C11.split_momentum_local
-#print axioms Simu.C11.merge_momentum_local
-#print axioms Simu.C11.new_node_midpoint
-#print axioms Simu.C11.new_node_equidistant
-#print axioms Simu.C11.split_area_vec
-#print axioms Simu.C11.split_area_normSq
-#print axioms Simu.C11.split_area_sum
-#print axioms Simu.C11.splitEdge_totalMom
-#print axioms Simu.C11.mergeEdge_totalMom
-#print axioms Simu.C11.splitEdge_freeOk
-#print axioms Simu.C11.mergeEdge_freeOk
-#print axioms Simu.C11.addNode_freeOk
-#print axioms Simu.C11.deleteNode_freeOk
-#print axioms Simu.C11.survivors_unmoved_split
-#print axioms Simu.C11.survivors_unmoved_merge
-#print axioms Simu.C11.split_new_node_pos
-#print axioms Simu.C11.merge_new_node_pos
-#print axioms Simu.C11.refineMesh_totalMom
-#print axioms Simu.C11.refineMesh_survivors_unmoved
-#print axioms Simu.C11.loop_selective
-#print axioms Simu.C11.refineMesh_selective
-#print axioms Simu.C11.conforming_fixpoint
-#print axioms Simu.C11.noop_step_band
-#print axioms Simu.C11.noop_step_refused
-#print axioms Simu.C11.split_step
-#print axioms Simu.C11.merge_step
-#print axioms Simu.C11.loop_stops
-#print axioms Simu.C11.termination_partial
+
+
+
+
+
+
+
+
+
+
+
+
+
+
+
+
+
+
+
+
+
+
+
+
+
+
+
+
+
